@@ -57,6 +57,37 @@ def build(spec):
     return g
 
 
+def apply_late(g, spec):
+    """edits made through handles / in-place replace AFTER the graph has been built and queried (its skeleton views
+    read, its caches warm): equality must see the current attributes"""
+    if not spec.get('late'):
+        return
+    for f in (lambda: g.skeleton.nodes, lambda: g.skeleton.edges, lambda: g.skeleton == g.skeleton,
+              lambda: g.skeleton.__eq__(g.skeleton, deep=True), lambda: g == g, lambda: g.__eq__(g, deep=True)):
+        try:
+            f()
+        except Exception:  # noqa: BLE001
+            pass
+    for op in spec['late']:
+        if op[0] != 'emeta' and not g.node_exists(op[1]):
+            continue                    # (a later edit of the spec dropped the target)
+        if op[0] == 'emeta':
+            ends = [(a, b) for a, b in ((op[1], op[2]), (op[2], op[1])) if g.node_exists(a) and g.node_exists(b)
+                    and g.edge_exists(a, b)]
+            if ends:
+                g.get_edge(*ends[0]).meta[op[3]] = op[4]
+            continue
+        if op[0] == 'vt':
+            g.get_node(op[1]).variable_type = NodeVariableType(op[2])
+        elif op[0] == 'nmeta':
+            g.get_node(op[1]).meta[op[2]] = op[3]
+        elif op[0] == 'replace_inplace':
+            if op[3] is None:
+                g.replace_node(op[1], meta=dict(op[2]))
+            else:
+                g.replace_node(op[1], meta=dict(op[2]), variable_type=NodeVariableType(op[3]))
+
+
 def ok_edge(cls, s, d, ty):
     """can `add_edge(s, d, ty)` be executed in this class (a directed time-series edge must respect time)"""
     return not (cls == 'ts' and ty == '->' and LAG[s] > LAG[d])
@@ -82,7 +113,8 @@ def rand_spec(rng, cls, n=None, p=0.55, names=None, metas=True):
 
 
 EDITS = ['identity', 'permute', 'flip_sym', 'flip_asym', 'change_type', 'drop_node', 'add_node', 'drop_edge',
-         'add_edge', 'move_edge', 'change_vtype', 'node_meta', 'edge_meta', 'change_class', 'change_class_reserved']
+         'add_edge', 'move_edge', 'change_vtype', 'node_meta', 'edge_meta', 'change_class', 'change_class_reserved',
+         'late_vt', 'late_node_meta', 'late_edge_meta', 'late_replace']
 
 
 def _copy(spec):
@@ -166,6 +198,27 @@ def apply_edit(rng, spec, edit):
             return s, edit + ':none'
         e = rng.choice(s['edges'])
         e[3] = dict(e[3], k=3) if e[3].get('k') != 3 else {}
+        return s, edit
+    if edit in ('late_vt', 'late_node_meta', 'late_replace'):
+        if not names:
+            return s, edit + ':none'
+        n = rng.choice(s['nodes'])
+        late = s.setdefault('late', [])
+        if edit == 'late_vt':
+            late.append(['vt', n[0], rng.choice(VTYPES)])
+        elif edit == 'late_node_meta':
+            late.append(['nmeta', n[0], rng.choice(['k', 'late']), rng.choice([1, 3, [1, 2]])])
+        else:
+            # in-place replace: the caller's metadata wholesale (it may carry the reserved time-series entries of another
+            # node), sometimes exactly the metadata the node already has
+            m = dict(n[2]) if rng.random() < 0.3 else dict(rng.choice(METAS))
+            late.append(['replace_inplace', n[0], m, rng.choice(VTYPES + [None, None])])
+        return s, edit
+    if edit == 'late_edge_meta':
+        if not s['edges']:
+            return s, edit + ':none'
+        e = rng.choice(s['edges'])
+        s.setdefault('late', []).append(['emeta', e[0], e[1], 'k', rng.choice([1, 3, 'x'])])
         return s, edit
     if edit in ('change_class', 'change_class_reserved'):
         if cls == 'ts':
@@ -307,7 +360,8 @@ class Lane(LaneBase):
     RULE = ('pairs (g, edit(g)) and triples over both classes, edit in {identity, permuted construction order, flip '
             'one symmetric edge, flip one asymmetric edge, change one type, drop/add one node, drop/add/move one '
             'edge, change one variable type, change one node / edge metadata value, change the graph class (with '
-            'and without the reserved metadata entries)}; thorough adds all 13x13 pairs of mixed graphs on 2 nodes '
+            'and without the reserved metadata entries), edits made late through node / edge handles or an in-place '
+            'replace_node after the skeleton views and caches have been read}; thorough adds all 13x13 pairs of mixed graphs on 2 nodes '
             '(both classes; contemporaneous and lagged time-series pair) and all 3-node graphs (13^3) each against '
             '16 (plain) / 8 (time-series) sampled edit-distance <= 2 neighbours. Every comparison (==, !=, __eq__ '
             'shallow/deep both ways; the same on the skeletons, on nodes and on edges) is compared with the model. A case is non-trivial when one of its graphs has an '
@@ -348,7 +402,7 @@ class Lane(LaneBase):
             cls = 'ts' if rng.random() < 0.45 else 'plain'
             a = rand_spec(rng, cls, metas=rng.random() < 0.5)
             # edits that tend to keep equality, so that the hypothesis of transitivity is often met
-            keep = ['identity', 'permute', 'flip_sym', 'node_meta', 'edge_meta', 'change_vtype']
+            keep = ['identity', 'permute', 'flip_sym', 'node_meta', 'edge_meta', 'change_vtype', 'late_replace', 'late_vt']
             b, t1 = apply_edit(rng, a, rng.choice(keep if rng.random() < 0.8 else EDITS[:13]))
             c, t2 = apply_edit(rng, b, rng.choice(keep if rng.random() < 0.8 else EDITS[:13]))
             yield {'kind': 'triple', 'graphs': [a, b, c], 'edit': t1 + '/' + t2, 'sub': rng.randint(0, 10 ** 9)}
@@ -379,6 +433,8 @@ class Lane(LaneBase):
         for k, g in enumerate(gs):
             if k != 1:          # one operand is queried heavily first, the other stays fresh: equality must not care
                 _gen.query_noise(g, ('c07', k, case.get('sub', 0), len(case['graphs'][k]['nodes'])))
+        for g, sp in zip(gs, case['graphs']):
+            apply_late(g, sp)
         toks = [impl.enc_graph(g) for g in gs]
         abss = [abstract(g) for g in gs]
         lines, out, oracle = [], [], []
